@@ -26,21 +26,21 @@ const (
 func (r Result) String() string { return [...]string{"unsat", "sat", "unknown"}[r] }
 
 type Solver struct {
-	cmd     *exec.Cmd
-	in      io.WriteCloser
-	out     *bufio.Reader
-	defined []map[int]bool    // per level: term ids defined
-	declared []map[string]bool // per level: vars declared
-	vars    map[string]*Term  // all vars ever declared (for model queries)
-	log     io.Writer
-	Queries int
-	Time    time.Duration
+	cmd       *exec.Cmd
+	in        io.WriteCloser
+	out       *bufio.Reader
+	defined   []map[int]bool    // per level: term ids defined
+	declared  []map[string]bool // per level: vars declared
+	vars      map[string]*Term  // all vars ever declared (for model queries)
+	log       io.Writer
+	Queries   int
+	Time      time.Duration
 	timeoutMs int
-	Errors  int
-	recorder func(script string, res Result) // for cross-solver sampling
-	script  []string // mirror of everything currently asserted (stack of lines per level)
-	levels  []int    // script length at each push
-	bin     string
+	Errors    int
+	recorder  func(script string, res Result) // for cross-solver sampling
+	script    []string                        // mirror of everything currently asserted (stack of lines per level)
+	levels    []int                           // script length at each push
+	bin       string
 }
 
 func NewSolver(bin string, timeoutMs int) (*Solver, error) {
